@@ -210,7 +210,13 @@ pub fn sweep(cases: Arc<Vec<Case>>, cfg: Arc<DevConfig>, f32_full: bool) -> DevR
             // replay twice before it counts
             let e2 = run_cont(&*s, script, cont);
             let e3 = run_cont(&*s, script, cont);
-            if e2.out != e.out || e3.out != e.out {
+            let same = |a: &Outcome, b: &Outcome| match (a, b) {
+                (Outcome::Done(x), Outcome::Done(y)) => x.bits == y.bits && x.bad == y.bad,
+                (Outcome::Panic(x), Outcome::Panic(y)) => x == y,
+                (Outcome::Cap, Outcome::Cap) => true,
+                _ => false,
+            };
+            if !same(&e2.out, &e.out) || !same(&e3.out, &e.out) {
                 eprintln!("machinery error: nondeterministic replay for {} script {:?}", case.label, hex_words(script));
                 std::process::exit(2);
             }
@@ -276,7 +282,7 @@ pub fn report_finding(rep: &Report, cases: &[Case], f: &DevFinding) {
     // normalise panic text: keep message + location
     let what = format!("{} {}: {} [{}; deviation word {} at request {} of base seed {}]", c.label, f.kind, f.detail, word_class(f.word), format_args!("0x{:016x}", f.word), f.pos, f.seed);
     let detail_key: String = f.detail.chars().take(60).collect();
-    let key = format!("{}|{}|{}|{}|{}|{}", c.family, f.kind, detail_key.split(" (value").next().unwrap_or(""), word_class(f.word), c.fty, c.label);
+    let key = format!("{}|{}|{}|{}|{}|{}", c.family, f.kind, detail_key.split(" (value").next().unwrap_or(""), c.fty, c.label, word_class(f.word));
     rep.violation(key, what, json!({
         "case": c.label, "family": c.family, "float_type": c.fty, "params": c.params,
         "kind": f.kind, "detail": f.detail,
